@@ -123,3 +123,10 @@ Proof.
   intros c s e H1 H2. exists (mkScript [mkCmd SynOk (RThrow s e) false] TNone), MFile.
   simpl. unfold run_file; simpl. unfold exec_cmd; simpl. rewrite H1, H2. reflexivity.
 Qed.
+
+(* the front end regenerated from the current tree is a good one (holds since the fix: commits 0fce10d, f4f7f0c, fe50f31) *)
+Lemma gen_cfg_good : good gen_cfg.
+Proof.
+  unfold good, gen_cfg; simpl. repeat split; try reflexivity.
+  right. intro e. destruct e; reflexivity.
+Qed.
